@@ -273,3 +273,33 @@ Proof.
       try (destruct (wc_takeover c); reflexivity); try (rewrite N2Z.id; reflexivity).
   - rewrite N2Z.id. reflexivity.
 Qed.
+
+(* ---- limitReader.Read and Conn.SetReadLimit (Gen/ReadCode.v) ---- *)
+
+(* the model's "limit hit" is: there is a limit, and this read uses the allowance up — the source's two conditions *)
+Theorem limit_hit_is_source : forall s got,
+  limit_hit s got = negb (gen_limit_unlimited (r_lrn s)) && gen_limit_hit_after (r_lrn s - Z.of_nat got).
+Proof.
+  intros s got. unfold limit_hit, gen_limit_unlimited, gen_limit_hit_after. f_equal.
+  destruct (Z.leb_spec 0 (r_lrn s)); destruct (Z.ltb_spec (r_lrn s) 0); try reflexivity; lia.
+Qed.
+
+(* a Read that finds the allowance exhausted fails with the limit error, puts Close 1009 on the wire and hands over nothing *)
+Theorem limit_exhausted_is_source : forall cfg inflate fuel n s, r_closed s = false -> gen_limit_exhausted (r_lrn s) = true ->
+  msg_read cfg inflate fuel n s = ([], Some RELimit, false, write_error s c_StatusMessageTooBig).
+Proof.
+  intros cfg inflate fuel n s Hc Hg. unfold msg_read. rewrite Hc. unfold gen_limit_exhausted in Hg. rewrite Hg. reflexivity.
+Qed.
+
+(* the buffer is cut down to the allowance exactly when the source does it (a limit, not exhausted, smaller than the buffer) *)
+Theorem limit_clamp_is_source : forall lrn n,
+  ((0 <? lrn) && (lrn <? Z.of_nat n))%Z =
+  negb (gen_limit_unlimited lrn) && negb (gen_limit_exhausted lrn) && gen_limit_clamp (Z.of_nat n) lrn.
+Proof.
+  intros lrn n. unfold gen_limit_unlimited, gen_limit_exhausted, gen_limit_clamp.
+  destruct (Z.ltb_spec 0 lrn); destruct (Z.ltb_spec lrn 0); destruct (Z.eqb_spec lrn 0); try lia; destruct (lrn <? Z.of_nat n)%Z; reflexivity.
+Qed.
+
+(* the allowance a connection starts with is what SetReadLimit stores for the default limit *)
+Theorem initial_limit_is_source : c_initialLimitStored = gen_limit_stored c_defaultReadLimit.
+Proof. reflexivity. Qed.
